@@ -2,7 +2,7 @@
 From Coq Require Import List ZArith Bool.
 From LJT Require Import model.Huff model.Seq model.Prog model.Script model.ArithBin gen.GenNatOrder
   proofs.NatOrderProofs proofs.SeqBits proofs.SeqProofs proofs.ProgProofs proofs.ScriptProofs
-  proofs.ChainProofs proofs.ArithProofs proofs.ExampleCodec.
+  proofs.ChainProofs proofs.ArithProofs proofs.ExampleCodec proofs.C03Examples gen.GenRestartClamp proofs.RestartProofs.
 Import ListNotations.
 Local Open Scope Z_scope.
 
@@ -25,7 +25,7 @@ Theorem C03_source_constants :
   gen_dctsize2 = DCTSIZE2 /\ gen_seq_zrl_threshold = 16 * gen_seq_run_step /\ gen_seq_run_step = 16 /\
   gen_seq_dc_extra_bits = 1 /\ gen_max_coef_bits_offset = 2 /\ gen_restart_num_mask = 7 /\
   gen_eobrun_flush_ac_first = EOBRUN_FLUSH /\ gen_eobrun_flush_ac_refine = EOBRUN_FLUSH /\
-  gen_max_corr_bits = MAX_CORR_BITS /\ gen_prog_zrl_run_first = 15 /\ gen_prog_zrl_run_refine = 15 /\
+  gen_max_corr_bits = MAX_CORR_BITS /\ gen_acr_be_before_flush = true /\ gen_prog_zrl_run_first = 15 /\ gen_prog_zrl_run_refine = 15 /\
   gen_eobrun_max_nbits = 14 /\ gen_dec_zrl_r = 15 /\ gen_dec_zrl_skip = 15 /\
   gen_pdec_zrl_r = 15 /\ gen_pdec_zrl_skip = 15.
 Proof. exact source_constants. Qed.
@@ -60,7 +60,7 @@ Print Assumptions C03_seq_block_roundtrip.
 Example C03_seq_block_nonvacuous :
   exists bits, enc_block fix8 fix8 10 5 ex_block = Some bits /\ length bits = 78%nat /\
     dec_block fix8 fix8 5 (bits ++ [true; false; true]) = Some (ex_block, [true; false; true]).
-Proof. eexists. split; [vm_compute; reflexivity|]. split; vm_compute; reflexivity. Qed.
+Proof. exact ex_C03_seq_block_nonvacuous. Qed.
 
 (* ---- (2) a whole scan: every MCU list, every MCU layout (membership: interleaved or not),
    every restart interval Ri (0 = none; dividing the MCU count or not), DC prediction chain
@@ -78,10 +78,24 @@ Example C03_seq_scan_nonvacuous :
              [ex_block; ex_block; ex_block2]; [ex_block3; ex_block2; ex_block2]] in
   exists bytes, seq_enc_scan (fun _ => fix8) (fun _ => fix8) 10 [0; 0; 1]%nat 2 2 ms = Some bytes /\
     In 255 bytes /\ seq_dec_scan (fun _ => fix8) (fun _ => fix8) [0; 0; 1]%nat 2 2 5 bytes = Some ms.
-Proof.
-  eexists. split; [vm_compute; reflexivity|]. split; [|vm_compute; reflexivity].
-  vm_compute. tauto.
-Qed.
+Proof. exact ex_C03_seq_scan_nonvacuous. Qed.
+
+(* ---- the interval the encoders restart at (cinfo->restart_interval after jcmaster.c
+   per_scan_setup, both functions regenerated from the source) is the interval emit_dri()
+   announces, for every restart_in_rows / MCUs_per_row / directly set interval; hence a decoder
+   that takes the interval from the DRI field splits the stream where the encoder restarted *)
+Theorem C03_restart_interval_announced : forall rows mpr ri, 0 <= rows -> 0 <= mpr -> 0 <= ri ->
+  let used := gen_per_scan_interval rows mpr ri in
+  0 <= used <= 65535 /\ gen_dri_field used = used.
+Proof. exact restart_interval_announced. Qed.
+Print Assumptions C03_restart_interval_announced.
+
+Theorem C03_seq_scan_roundtrip_dri : forall dct act mcb mem ncomp rows mpr ri ms bytes,
+  0 <= rows -> 0 <= mpr -> 0 <= ri -> mcb <= 15 -> Forall (Forall (fun b => length b = 64%nat)) ms ->
+  seq_enc_scan dct act mcb mem ncomp (Z.to_nat (gen_per_scan_interval rows mpr ri)) ms = Some bytes ->
+  seq_dec_scan dct act mem ncomp (Z.to_nat (gen_dri_field (gen_per_scan_interval rows mpr ri))) (length ms) bytes = Some ms.
+Proof. exact seq_scan_roundtrip_dri. Qed.
+Print Assumptions C03_seq_scan_roundtrip_dri.
 
 (* ---- (4) progressive: DC first / DC refine / AC first scans, all block lists, all restart
    intervals, EOBRUN of any length (forced flush at 0x7FFF included) *)
@@ -131,7 +145,7 @@ Print Assumptions C03_ac_first_values.
 
 (* more than 32767 consecutive all-zero blocks: the run is split at 0x7FFF and still decodes *)
 Example C03_eobrun_overflow_nonvacuous : 32767 < 32800 /\ eobrun_example_check 32800 = true.
-Proof. split; [reflexivity|vm_compute; reflexivity]. Qed.
+Proof. split; [reflexivity|exact eobrun_example_ok]. Qed.
 
 (* ---- AC refinement (PARTIAL).  Full statement: one restart interval of AC refinement round-trips
    for every codec, band and block list (EOBRUN with buffered correction bits, ZRL folding into
@@ -154,7 +168,7 @@ Print Assumptions C03_ac_refine_scan_roundtrip_partial.
 
 Example C03_ac_refine_instances :
   acr_example_check 1 63 1 = true /\ acr_example_check 1 63 0 = true /\ acr_example_check 2 40 1 = true.
-Proof. repeat split; vm_compute; reflexivity. Qed.
+Proof. exact acr_examples_ok. Qed.
 
 (* ---- (5) validate_script: an accepted progressive script codes every coefficient of every
    component as the chain (0,a0),(a0,a0-1),...; DC before AC; DC data for every component;
@@ -183,7 +197,7 @@ Example C03_script_nonvacuous :
               {| s_comps := [1]; s_Ss := 1; s_Se := 63; s_Ah := 1; s_Al := 0 |};
               {| s_comps := [0]; s_Ss := 1; s_Se := 63; s_Ah := 1; s_Al := 0 |} ] in
   exists st, validate_script 3 8 sc = inr (Progressive, st) /\ script_complete st = true.
-Proof. eexists. split; vm_compute; reflexivity. Qed.
+Proof. exact ex_C03_script_nonvacuous. Qed.
 
 (* ---- successive approximation: per coefficient, the value functions of the four decoder
    procedures composed along any chain of a complete accepted script give back the value *)
@@ -223,8 +237,4 @@ Example C03_arith_nonvacuous :
   (forall s st b ds, s = (st, b) :: ds -> exists s', next st s = Some (b, s') /\ s' = ds) /\
   dec_dc_arith (list decision) next 4 0 1 (fst (enc_dc_arith 4 0 1 (-32767)) ++ [(7, true)])
     = Some (-32767, snd (enc_dc_arith 4 0 1 (-32767)), [(7, true)]).
-Proof.
-  split.
-  - intros s st b ds ->. exists ds. cbn. rewrite Z.eqb_refl. split; reflexivity.
-  - vm_compute. reflexivity.
-Qed.
+Proof. exact ex_C03_arith_nonvacuous. Qed.
